@@ -25,6 +25,10 @@ type Log struct {
 	mu    sync.Mutex
 	Lines []string
 	sb    string // sandbox prefix, replaced by $SB so logs do not depend on the pid
+	// names the library chose for files of its own (seen by inode number, see
+	// overlap.go): it may pick them at random, so lines showing them are
+	// marked and not hashed
+	partial []string
 }
 
 func (l *Log) Addf(format string, a ...interface{}) {
@@ -40,6 +44,11 @@ func (l *Log) Addf(format string, a ...interface{}) {
 			}
 		}
 	}
+	for _, n := range l.partial {
+		if strings.Contains(s, n) {
+			s = strings.ReplaceAll(s, n, "$PARTIAL("+n+")")
+		}
+	}
 	l.mu.Lock()
 	l.Lines = append(l.Lines, fmt.Sprintf("t=+%d %s", time.Since(epoch).Nanoseconds(), s))
 	l.mu.Unlock()
@@ -51,7 +60,7 @@ func (l *Log) Hash() string {
 		// Disk-call lines carry file names the library is free to choose at
 		// random (temporary files): they are shown, not hashed. Everything the
 		// properties speak about (requests, answers, results, violations) is.
-		if strings.Contains(s, " disk ") {
+		if strings.Contains(s, " disk ") || strings.Contains(s, "$PARTIAL(") {
 			continue
 		}
 		h.Write([]byte(s))
